@@ -65,22 +65,23 @@ func (s issSpec) refKey() string {
 var customHeaderPool = []string{"x-forwarded-host", "X-Tenant-Host", "x-original-host", "Forwarded", "X-Forwarded-Host", "x-tenant-host"}
 
 type issProbe struct {
-	name string
-	host string // "" = the instance's own host
-	hdr  http.Header
+	name    string
+	host    string // "" = the instance's own host
+	hdr     http.Header
+	handler bool // also sent to a provider's discovery endpoint (every probe is put to its IssuerFromRequest)
 }
 
 var issuerProbes = []issProbe{
-	{"own-host", "", nil},
-	{"other-host", "alt.example.net", nil},
-	{"forwarded", "", http.Header{"Forwarded": {"host=fwd.example.org;proto=https"}}},
-	{"x-forwarded-host", "", http.Header{"X-Forwarded-Host": {"host=xfh.example.org"}}},
-	{"x-tenant-host", "", http.Header{"X-Tenant-Host": {"host=tenant.example.org"}}},
-	{"x-original-host", "", http.Header{"X-Original-Host": {"host=orig.example.org"}}},
-	{"forwarded+x-tenant-host", "", http.Header{"Forwarded": {"host=fwd.example.org"}, "X-Tenant-Host": {"host=tenant.example.org"}}},
+	{"own-host", "", nil, false},
+	{"other-host", "alt.example.net", nil, true},
+	{"forwarded", "", http.Header{"Forwarded": {"host=fwd.example.org;proto=https"}}, true},
+	{"x-forwarded-host", "", http.Header{"X-Forwarded-Host": {"host=xfh.example.org"}}, false},
+	{"x-tenant-host", "", http.Header{"X-Tenant-Host": {"host=tenant.example.org"}}, false},
+	{"x-original-host", "", http.Header{"X-Original-Host": {"host=orig.example.org"}}, false},
+	{"forwarded+x-tenant-host", "", http.Header{"Forwarded": {"host=fwd.example.org"}, "X-Tenant-Host": {"host=tenant.example.org"}}, false},
 	{"all-four", "alt.example.net", http.Header{"Forwarded": {"for=192.0.2.1;host=fwd.example.org"}, "X-Forwarded-Host": {"host=xfh.example.org"},
-		"X-Tenant-Host": {"host=tenant.example.org"}, "X-Original-Host": {"host=orig.example.org"}}},
-	{"bare-values", "", http.Header{"Forwarded": {"for=192.0.2.1"}, "X-Forwarded-Host": {"bare.example.org"}}}, // no host field anywhere
+		"X-Tenant-Host": {"host=tenant.example.org"}, "X-Original-Host": {"host=orig.example.org"}}, true},
+	{"bare-values", "", http.Header{"Forwarded": {"for=192.0.2.1"}, "X-Forwarded-Host": {"bare.example.org"}}, false}, // no host field anywhere
 }
 
 // hostField is the harness's own reading of a Forwarded-style header value: the host= pair of a ';' separated list.
@@ -301,12 +302,16 @@ func (e *orderEnv) extraBehaviour(p *provInst, full bool) (iss map[string]string
 		return iss, p.other
 	}
 	for _, pr := range issuerProbes {
+		if !pr.handler {
+			continue
+		}
 		ag := *p.ag
 		if pr.host != "" {
 			ag.Host = pr.host
 		}
 		d := ag.Get("/.well-known/openid-configuration", nil, pr.hdr)
-		other["discovery@"+pr.name] = fmt.Sprintf("%d issuer=%s token_endpoint=%s jwks_uri=%s", d.Status, d.Str("issuer"), d.Str("token_endpoint"), d.Str("jwks_uri"))
+		doc := d.JSON()
+		other["discovery@"+pr.name] = fmt.Sprintf("%d issuer=%v token_endpoint=%v jwks_uri=%v", d.Status, doc["issuer"], doc["token_endpoint"], doc["jwks_uri"])
 	}
 	for _, origin := range []string{"https://app.example.com", "https://other.example.net"} {
 		r := p.ag.Get("/.well-known/openid-configuration", nil, http.Header{"Origin": {origin}})
@@ -322,12 +327,21 @@ func (e *orderEnv) extraBehaviour(p *provInst, full bool) (iss map[string]string
 	k := p.ag.Keys()
 	other["keys"] = fmt.Sprintf("%d %s", k.Status, k.Body)
 	t := p.ag.Token(map[string][]string{"grant_type": {"nonsense"}}, vkit.RightCred(p.store.Clients["web"], p.issuer))
-	other["token:unknown-grant"] = fmt.Sprintf("%d %s", t.Status, t.Body)
+	other["token:unknown-grant"] = refusalLine(t)
 	a := p.ag.Authorize(map[string][]string{"client_id": {"nobody"}, "redirect_uri": {rpRedirect}, "response_type": {"code"}, "scope": {"openid"}, "state": {"fp"}})
-	other["authorize:unknown-client"] = fmt.Sprintf("%d %s %s", a.Status, a.Location(), a.Body)
+	other["authorize:unknown-client"] = refusalLine(a)
 	u := p.ag.Get(p.ag.S.Paths["userinfo"], nil, nil)
-	other["userinfo:no-token"] = fmt.Sprintf("%d %s", u.Status, u.Body)
+	other["userinfo:no-token"] = refusalLine(u)
 	return iss, other
+}
+
+// refusalLine renders the answer to a bad request: status and body of a refusal. Where the path is answered by something
+// else (two endpoints of one provider on one path), the answer may carry fresh values: only its status is kept.
+func refusalLine(r *vkit.Resp) string {
+	if r.Status < 400 {
+		return fmt.Sprintf("%d", r.Status)
+	}
+	return fmt.Sprintf("%d %s", r.Status, strings.TrimSpace(string(r.Body)))
 }
 
 func mapDiff(was, now map[string]string) string {
